@@ -952,7 +952,7 @@ def rule_single_owner(ctx, P, r):
 # ---------------------------------------------------------------- R06f list bitmaps
 from ..guards import implied_atoms as implied_atoms_
 
-def rule_list_bitmaps(ctx, P, r, units=None):
+def rule_list_bitmaps(ctx, P, r, units=None, every_backend=False):
     """convert_list_to_bitmap builds its 64-bit result from `1 << idx` in int arithmetic: for index 31 the sign extension sets
     bits 31..63.  That is harmless as long as every consumer tests single bits (`bm & (1 << i)`, i < 32); any whole-word consumer
     (population count, comparison, shift, arithmetic) sees 33 elements for a list that names fragment 31."""
@@ -986,7 +986,7 @@ def rule_list_bitmaps(ctx, P, r, units=None):
     # examined there; passing it on is not a use of its value)
     seeds = {}
     for name, fn in sorted(P.fns.items()):
-        if hazard and not (OUT_OF_SCOPE.search(fn.mod.src) or (units and fn.mod.src not in units)):
+        if hazard and not ((OUT_OF_SCOPE.search(fn.mod.src) and not every_backend) or (units and fn.mod.src not in units)):
             t0 = {i.res for i in fn.insts() if i.op == 'call' and i.callee.startswith('@convert_list_to_bitmap') and i.res}
             if t0:
                 seeds[name] = t0
@@ -1174,3 +1174,80 @@ def rule_missing_list_readonly(ctx, P, r):
                            'rebuilt fragments, so clobbered entries leave rebuilt fragments without a header')
             else:
                 r.ok(inst, func=fname, loc=f.mod.src)
+
+# ---------------------------------------------------------------- refusal inventory
+_INST_KM = re.compile(r'\*@liberasurecode_backend_instance_get_by_desc\(arg0\)\.args\.uargs\.(k|m)\b')
+
+def _refusal_operand_ok(e):
+    """an operand of a refusing comparison in a front-end operation: a constant, an argument, the result of a call (a callee's
+    verdict), a local counter, or the instance's k / m - never another instance parameter or a value read from memory"""
+    e = e.strip()
+    while True:
+        m = re.match(r'^(?:sext|zext|trunc)\.i\d+\((.*)\)$', e)
+        if not m:
+            break
+        e = m.group(1)
+    if e.startswith('@') or e.startswith('(*'):
+        return True                     # a callee's result
+    rest = _INST_KM.sub('K', e)
+    return '*' not in rest and '@' not in rest
+
+def rule_refusal_inventory(ctx, P, r, fnames, policy=None, what=None):
+    """every branch of a front-end operation that leads only to negative returns tests nothing but: arguments, k / m of the
+    instance, local counters and results of callees.  A refusal that looks at another instance parameter (hd, w, ct) or at
+    memory directly is a new reason to fail that the operation's contract does not have."""
+    from ..guards import edge_condition
+    from ..retval import returns_via_edge, all_negative
+    for fname in fnames:
+        f = P.fn(fname)
+        C = Canon(P, f)
+        n = 0
+        for b in f.order:
+            t = b.insts[-1]
+            if t.op != 'br' or len(t.targets) != 2 or not t.ops or t.targets[0] == t.targets[1]:
+                continue
+            s0, s1 = f.blocks[t.targets[0]], f.blocks[t.targets[1]]
+            v0, v1 = returns_via_edge(f, b, s0), returns_via_edge(f, b, s1)
+            if all_negative(v0) == all_negative(v1):
+                continue
+            # all comparisons the decision is made of
+            leaves, st, seen = [], [t.ops[0]], set()
+            while st:
+                x = st.pop()
+                if x in seen:
+                    continue
+                seen.add(x)
+                d = f.defs.get(x)
+                if d is None:
+                    continue
+                if d.op == 'icmp':
+                    leaves.append(d)
+                elif d.op in ('and', 'or', 'xor', 'select', 'zext', 'trunc', 'phi'):
+                    st += [o for o in (d.ops if d.op != 'phi' else [v for v, _ in d.incoming]) if isinstance(o, str) and o.startswith('%')]
+                elif d.op == 'call':
+                    leaves.append(d)
+            n += 1
+            bad = None
+            for lf in leaves:
+                if lf.op == 'call':
+                    continue
+                ops_ = [C.val(strip_int_casts(f, o)) for o in lf.ops[:2]]
+                if policy is not None:
+                    pb = policy(lf, ops_)
+                    if pb:
+                        bad = (lf, pb)
+                    continue
+                for e in ops_:
+                    if not _refusal_operand_ok(e):
+                        bad = (lf, e)
+            inst = f'{fname}: refusal decided at line {t.line}'
+            if bad and what is not None:
+                r.fail(inst, func=f.name, sig=f'refusal: {bad[1][:70]}', loc=bad[0].loc, msg=f'{fname} fails on {bad[1]}: {what}')
+            elif bad:
+                r.fail(inst, func=f.name, sig=f'refusal depends on {bad[1][:60]}', loc=bad[0].loc,
+                       msg=f'{fname} fails (returns {sorted(map(str, v0 if all_negative(v0) else v1))[:3]}) on a condition over {bad[1]}: the operation may refuse because of its '
+                           'arguments, k, m, or a callee\'s verdict - not because of another parameter of the instance or a value it reads itself')
+            else:
+                r.ok(inst, func=f.name, loc=t.loc)
+        if not n:
+            r.undecided(f'{fname}: refusals', loc=f.mod.src, msg='no branch that leads only to negative returns was found')
